@@ -151,9 +151,28 @@ def firstSome {α : Type} (f : α → Option String) : List α → Option String
     | some s => some s
     | none => firstSome f r
 
-def Judge.observe (j : Judge) (op : Op) (o : Obs) : Judge × String :=
-  if !op.quiescent then (j, "na") else
-  let sp' := j.spec.step op
+/-- The key on which a request takes effect, so that it — and no earlier request — governs the key
+from then on ("replaced, removed, or had its time-to-live cleared or extended by a later set"). -/
+def Spec.effectOn (sp : Spec) : Op → Option Key
+  | .set k _ _ => some k
+  | .cas k old (some _) _ => if old = sp.value k then some k else none
+  | .cas k old none _ => if old.isSome ∧ old = sp.value k then some k else none
+  | .remove k => some k
+  | .casRemove k old => if old.isSome ∧ old = sp.value k then some k else none
+  | _ => none
+
+/-- The statement's reading of the harness choreography `late k v ttl a` (`SetTTL(k,v,ttl)`; the
+ttl passes; request `a` is served; only then does the expiry of the first request get its turn):
+if `a` took effect on `k` the later request governs and nothing expires, otherwise `k` is gone. -/
+def Spec.late (sp : Spec) (k : Key) (v : Val) (ttl : Int) (a : Op) : Spec :=
+  let sp1 := sp.put k v ttl
+  let sp2 := { sp1 with now := sp1.now + ttl.toNat }
+  let sp3 := sp2.step a
+  if sp2.effectOn a = some k then sp3 else sp3.expire k
+
+/-- Core of the judge: `sp'` is the ideal store after the step, `op` decides who joins / leaves,
+`composite` relaxes the two clauses that only make sense for a single request. -/
+def Judge.check (j : Judge) (sp' : Spec) (op : Op) (composite : Bool) (o : Obs) : Judge × String :=
   let before := canonMap (j.spec.ents.map (fun p => (p.1, p.2.val)))
   let want := canonMap (sp'.ents.map (fun p => (p.1, p.2.val)))
   let got := canonMap o.data
@@ -178,13 +197,14 @@ def Judge.observe (j : Judge) (op : Op) (o : Obs) : Judge × String :=
         | some k => some ("violated:value-not-gone:" ++ k)
         | none => some "violated:wrong-value"
   -- 2. nobody but registered listeners hears anything
+  let allowed := if composite then j.listeners ++ listeners' else listeners'
   let vStranger : Option String :=
-    firstSome (fun p : Lid × Msg => if p.1 ∈ listeners' then none else some s!"violated:notified-unregistered:L{p.1}") o.msgs
+    firstSome (fun p : Lid × Msg => if p.1 ∈ allowed then none else some s!"violated:notified-unregistered:L{p.1}") o.msgs
   -- 3. a request that leaves the data as it is sends nothing (joining may send the snapshot)
   let vSilent : Option String :=
     match op with
     | .addListener _ => none
-    | _ => if want = before ∧ !o.msgs.isEmpty then some "violated:unchanged-but-notified" else none
+    | _ => if !composite ∧ want = before ∧ !o.msgs.isEmpty then some "violated:unchanged-but-notified" else none
   -- 4. every registered listener's replica reproduces the store it belongs to
   let vReplica : Option String :=
     firstSome (fun p : Lid × Replica => if canonMap p.2 = got then none else some s!"violated:replica-diverged:L{p.1}") view'
@@ -194,5 +214,11 @@ def Judge.observe (j : Judge) (op : Op) (o : Obs) : Judge × String :=
   | _, _, some v, _ => (j', v)
   | _, _, _, some v => (j', v)
   | _, _, _, _ => (j', "ok")
+
+def Judge.observe (j : Judge) (op : Op) (o : Obs) : Judge × String :=
+  if !op.quiescent then (j, "na") else j.check (j.spec.step op) op false o
+
+def Judge.observeLate (j : Judge) (k : Key) (v : Val) (ttl : Int) (a : Op) (o : Obs) : Judge × String :=
+  if !a.quiescent then (j, "na") else j.check (j.spec.late k v ttl a) a true o
 
 end SigModel.Transient
